@@ -90,8 +90,13 @@ def nom_failure(it, sp):
     return err(Enum('Err', 'Failure', 2, [Opaque('GreedyError', {'pos': sp.data['off']})]))
 
 
+def nom_incomplete(it, sp):
+    return err(Enum('Err', 'Incomplete', 0, [Opaque('Needed', None)]))
+
+
 def is_failure(r):
-    return r.variant == 'Err' and type(r.fields[0]) is Enum and r.fields[0].variant == 'Failure'
+    # nom's opt / alt / many0 / many_till recover Err::Error only: Failure (cut) and Incomplete (a streaming primitive) propagate
+    return r.variant == 'Err' and type(r.fields[0]) is Enum and r.fields[0].variant in ('Failure', 'Incomplete')
 
 
 def result_type(dest_ty):
@@ -283,6 +288,25 @@ def apply_prim(it, P_, sp, dest_ty):
     g = gs(it)
     k = P_.kind
     p = sp.data['off']
+    if k.endswith('@streaming'):
+        # nom::*::streaming primitives answer Err::Incomplete when the input ends before they can decide
+        base = P(k[:-10], *P_.args, **P_.kw)
+        lx = it.env.get('lex')
+        if lx is None:
+            if it.decide(g.fresh('incomplete', 'Bool'), 'streaming-incomplete'):
+                g.log.append(('incomplete', k))
+                return nom_incomplete(it, sp)
+            return apply_prim(it, base, sp, dest_ty)
+        r = it.concretize(apply_prim(it, base, sp, dest_ty))
+        if r.variant == 'Ok':
+            if base.kind in ('take_while', 'take_while1', 'take_till', 'take_till1', 'is_a', 'is_not') and r.fields[0].fields[0].data['off'] >= lx.n:
+                return nom_incomplete(it, sp)      # the run reached the end of the input: more could follow
+            return r
+        if base.kind in ('take_until', 'take', 'tag', 'tag_no_case', 'char', 'one_of', 'none_of', 'anychar', 'satisfy'):
+            need = len(base.args[0]) if (base.kind in ('tag', 'tag_no_case', 'take_until') and isinstance(base.args[0], str)) else (base.args[0] if base.kind == 'take' and isinstance(base.args[0], int) else 1)
+            if base.kind == 'take_until' or p + need > lx.n:
+                return nom_incomplete(it, sp)
+        return r
     if it.env.get('lex') is not None:
         import lexengine
         r = lexengine.lex_prim(it, P_, sp, dest_ty)
@@ -571,9 +595,10 @@ def install(mdl, production_names=None):
             arg = a[0] if a else None
             if type(arg) is Ref and type(arg.get()) in (Closure, FnItem):
                 arg = arg.get()
+            kind = NOM_CTORS[name] + ('@streaming' if '::streaming::' in ci.path else '')
             if type(arg) is str or arg is None or isinstance(arg, AbsStr) or type(arg) in (Char, int, Closure, FnItem):
-                return parser(NOM_CTORS[name], arg)       # predicates (closures / fn items) are kept: Engine L evaluates them
-            return parser(NOM_CTORS[name], None)
+                return parser(kind, arg)       # predicates (closures / fn items) are kept: Engine L evaluates them
+            return parser(kind, None)
         if name in NOM_COMB1:
             return parser(name, a[0])
         if name in ('map', 'map_res', 'map_opt', 'verify'):
@@ -597,7 +622,7 @@ def install(mdl, production_names=None):
         if name == 'success':
             return parser('success', a[0])
         raise Inconclusive('nom constructor %s' % ci.path[:120])
-    ov(r'^nom::(bytes::complete|character::complete|combinator|branch|multi|sequence|error)::(%s)(::<|$)' % '|'.join(
+    ov(r'^nom::(bytes::complete|bytes::streaming|character::complete|character::streaming|combinator|branch|multi|sequence|error)::(%s)(::<|$)' % '|'.join(
         sorted(set(NOM_CTORS) | NOM_COMB1 | {'map', 'map_res', 'map_opt', 'verify', 'alt', 'pair', 'terminated', 'preceded', 'tuple', 'delimited',
                                               'separated_pair', 'many_till', 'fold_many0', 'context', 'value', 'success'})), ctor)
 
